@@ -1082,6 +1082,20 @@ def f(*args, **kwargs):
     return ['exec_main', helper(len(args)), list(args), sorted(kwargs.items())]
 '''
 
+# the same, but the function finds its helpers at call time (dispatch tables,
+# `eval` of an expression, optional knobs): nothing in its code names them
+_EXEC_DYN_SRC = '''
+K = %r
+KNOB_present = 'knob'
+def op_len(x):
+    return [K, x]
+def f(*args, **kwargs):
+    op   = globals()['op_' + 'len']
+    knob = globals().get('KNOB_' + 'present', 'default')
+    return ['exec_main_dyn', op(len(args)), eval('K'), knob, list(args),
+            sorted(kwargs.items())]
+'''
+
 _BUILTINS = {'len'    : len,
              'sorted' : sorted,
              'divmod' : divmod,
@@ -1091,7 +1105,7 @@ _BUILTINS = {'len'    : len,
 
 FLEX_KINDS = ['mf_flex', 'mf_defaults', 'closure', 'closure2', 'cdef',
               'lambda', 'obj', 'meth', 'exec_main', 'async', 'wrapped',
-              'smeth', 'cmeth']
+              'smeth', 'cmeth', 'exec_main_dyn']
 FUNC_KINDS = FLEX_KINDS + ['mf_noargs', 'lambda_d', 'partial', 'partial2',
                            'partial_apply', 'builtin']
 FORMS      = ['new3', 'new3list', 'new2', 'newkw', 'new1', 'decor',
@@ -1120,6 +1134,10 @@ def build_func(spec):
         ns = {'__name__': '__main__'}
         exec(_EXEC_SRC % (spec['c'],), ns)                   # noqa
         return ns['f']
+    if fk == 'exec_main_dyn':
+        ns = {'__name__': '__main__'}
+        exec(_EXEC_DYN_SRC % (spec['c'],), ns)               # noqa
+        return ns['f']
     if fk == 'partial':
         return functools.partial(build_func(spec['base']),
                                  *copy.deepcopy(spec['pa']),
@@ -1138,7 +1156,7 @@ def _flex_spec(rng, kinds=None):
     fk   = rng.choice(kinds or FLEX_KINDS)
     spec = {'fk': fk}
     if fk in ('obj', 'meth', 'closure', 'closure2', 'cdef', 'lambda',
-              'exec_main', 'wrapped'):
+              'exec_main', 'wrapped', 'exec_main_dyn'):
         spec['c'] = rng.choice([0, 7, -1, 'c', 'c d', 2.5, None])
     if fk == 'wrapped':
         spec['depth'] = rng.choice([1, 1, 2, 3])
